@@ -219,6 +219,15 @@ func (t *FnTrans) goStmt(x *ssa.Go) {
 
 // ghostUpdate executes "lhs = expr" where lhs is a ghost global or ghost field.
 func (t *FnTrans) ghostUpdate(g *Clause, env *Env) {
+	if strings.HasPrefix(g.Text, "assert ") {
+		e, err := ParseExpr(strings.TrimSpace(g.Text[len("assert "):]))
+		if err != nil {
+			t.fail("%s:%d: %v", g.File, g.Line, err)
+		}
+		env.st = t.cur
+		t.oblige("gassert", env.evalBool(e), g.Text)
+		return
+	}
 	i := strings.Index(g.Text, "=")
 	for i >= 0 && (strings.HasPrefix(g.Text[i:], "==") || i > 0 && strings.ContainsRune("<>!=", rune(g.Text[i-1]))) {
 		j := strings.Index(g.Text[i+2:], "=")
@@ -249,6 +258,7 @@ func (t *FnTrans) ghostUpdate(g *Clause, env *Env) {
 		}
 		c := t.comp("GG."+env.pkg.Path()+"."+lhsE.Name, s)
 		t.set(c, rhs.S)
+		t.checkGlobalInv("ghost update of " + lhsE.Name)
 	case "sel":
 		base := env.eval(lhsE.Args[0])
 		n, ok := derefNamed(env.resolveT(base.T))
@@ -358,6 +368,10 @@ func (t *FnTrans) wCell(l *loopInfo, T types.Type) {
 	T = t.resolve(T)
 	if _, isS := T.Underlying().(*types.Struct); isS {
 		t.wStruct(l, T, "")
+		return
+	}
+	if at, isA := T.Underlying().(*types.Array); isA {
+		t.wElem(l, at.Elem())
 		return
 	}
 	s := t.sortOf(T)
